@@ -150,6 +150,13 @@ func (s *storage) makePackedMetaBlob(plains, toDelete []blob.Ref) {
 	if len(plains) < FullMetaBlobSize {
 		s.recordMeta(&metaBlob{br: metaSB.Ref, plains: plains})
 	}
+	s.scanMu.Lock()
+	if s.scanRolledUp != nil {
+		for _, br := range toDelete {
+			s.scanRolledUp[br] = true
+		}
+	}
+	s.scanMu.Unlock()
 	if err := s.meta.RemoveBlobs(ctx, toDelete); err != nil {
 		log.Printf("encrypt: failed to delete small meta blobs: %v", err)
 	}
@@ -260,6 +267,15 @@ func (s *storage) processEncryptedMetaBlob(br blob.Ref, dat []byte) error {
 }
 
 func (s *storage) readAllMetaBlobs() error {
+	s.scanMu.Lock()
+	s.scanRolledUp = make(map[blob.Ref]bool)
+	s.scanMu.Unlock()
+	defer func() {
+		s.scanMu.Lock()
+		s.scanRolledUp = nil
+		s.scanMu.Unlock()
+	}()
+
 	type encMB struct {
 		br  blob.Ref
 		dat []byte // encrypted blob
@@ -289,6 +305,15 @@ func (s *storage) readAllMetaBlobs() error {
 				defer func() { <-gate }()
 				rc, _, err := s.meta.Fetch(ctx, sb.Ref)
 				if err != nil {
+					s.scanMu.Lock()
+					rolledUp := s.scanRolledUp[sb.Ref]
+					s.scanMu.Unlock()
+					if rolledUp && errors.Is(err, os.ErrNotExist) {
+						// Enumerated, then rolled up into a bigger meta
+						// blob (and removed) by this very scan: its
+						// entries have been read already.
+						return
+					}
 					metac <- encMB{sb.Ref, nil, fmt.Errorf("fetch failed: %w", err)}
 					return
 				}
